@@ -39,6 +39,8 @@ pub enum Op {
     SetClose(bool),
     Fail(Method),
     Drain(usize),
+    /// wake-driven mode: poll every task whose waker fired until none is woken
+    Settle,
 }
 
 #[derive(Clone, Debug)]
@@ -116,6 +118,7 @@ fn parse_tok(t: &str) -> Option<Op> {
             _ => return None,
         }),
         "d" => Op::Drain(a.parse().ok()?),
+        "S" => Op::Settle,
         _ => return None,
     })
 }
@@ -149,6 +152,7 @@ pub fn show_op(o: &Op) -> String {
             }
         ),
         Op::Drain(k) => format!("d{k}"),
+        Op::Settle => "S".into(),
     }
 }
 
@@ -191,6 +195,7 @@ fn coq_op(o: &Op) -> String {
             }
         ),
         Op::Drain(k) => format!("STr (TDrain {k})"),
+        Op::Settle => "SETTLE".into(),
     }
 }
 
@@ -431,6 +436,97 @@ impl World {
     }
 }
 
+impl World {
+    /// Polls every task whose REAL waker fired, dispatch first, then calls in index order,
+    /// until no task is woken. Returns one `WS ...` observation.
+    fn settle(&mut self) -> String {
+        let mut sent: Vec<String> = vec![];
+        let mut read: Vec<String> = vec![];
+        let mut done: Vec<String> = vec![];
+        let mut disp = "None".to_string();
+        let mut rounds = 0;
+        loop {
+            rounds += 1;
+            if rounds > 2000 {
+                self.tags.insert("SETTLE-DIVERGES".into());
+                return "WFuel".into();
+            }
+            let mut any = false;
+            if self.dispatch.is_some() && !self.finished && self.dwaker.woken() {
+                any = true;
+                let o = self.poll_dispatch();
+                for x in &o {
+                    if let Some(rest) = x.strip_prefix("OCalls [") {
+                        // split the call list back into entries
+                        let body = &rest[..rest.len() - 1];
+                        for e in split_top(body) {
+                            if let Some(m) = e.strip_prefix("CSend (") {
+                                let (msg, r) = m.rsplit_once(") ").unwrap();
+                                sent.push(format!("({msg}, {r})"));
+                            } else if let Some(m) = e.strip_prefix("CNext (RItem (") {
+                                read.push(m[..m.len() - 2].to_string());
+                            }
+                        }
+                    } else if let Some(r) = x.strip_prefix("ODisp (DReady ") {
+                        disp = format!("Some ({})", &r[..r.len() - 1]);
+                    } else if x == "OPanic" || x == "OSpin" {
+                        return "WFuel".into();
+                    }
+                }
+            }
+            for i in 0..self.calls.len() {
+                let woken = self.calls[i].fut.is_some() && self.calls[i].waker.woken();
+                if woken {
+                    any = true;
+                    for x in self.poll_call(i) {
+                        if let Some(r) = x.strip_prefix("OCall (CDone (") {
+                            done.push(format!("({i}, {})", &r[..r.len() - 2]));
+                        } else if x == "OPanic" {
+                            return "WFuel".into();
+                        }
+                    }
+                }
+            }
+            if !any {
+                break;
+            }
+        }
+        let (a, b) = match &self.dispatch {
+            Some(d) => d.verif_gauges(),
+            None => (0, 0),
+        };
+        format!("WS {} {} {} ({disp}) {a} {b}", coq_list(&sent), coq_list(&read), coq_list(&done))
+    }
+}
+
+/// splits "a; b (c; d); e" at top-level semicolons
+fn split_top(s: &str) -> Vec<String> {
+    let mut out = vec![];
+    let mut depth = 0i32;
+    let mut cur = String::new();
+    for ch in s.chars() {
+        match ch {
+            '(' | '[' => {
+                depth += 1;
+                cur.push(ch);
+            }
+            ')' | ']' => {
+                depth -= 1;
+                cur.push(ch);
+            }
+            ';' if depth == 0 => {
+                out.push(cur.trim().to_string());
+                cur = String::new();
+            }
+            _ => cur.push(ch),
+        }
+    }
+    if !cur.trim().is_empty() {
+        out.push(cur.trim().to_string());
+    }
+    out
+}
+
 type Shared = Rc<RefCell<World>>;
 
 /// Executes ops[from..until). Guard drops with a matching later `L i` run the ops in between
@@ -599,8 +695,22 @@ fn exec_range(w: &Shared, rt: &tokio::runtime::Runtime, ops: &Rc<Vec<Op>>, from:
                 w.borrow_mut().tags.insert("fault-armed".into());
             }
             Op::Drain(n) => w.borrow().tr.drain(n),
+            Op::Settle => {
+                o = vec![w.borrow_mut().settle()];
+            }
         }
         let mut wb = w.borrow_mut();
+        // Any change of the transport's state counts as an event the transport reports to its
+        // user (a spurious wakeup is always allowed): whether the scripted transport itself
+        // wakes correctly is not what is under test; tarpc's own wake sources (queues,
+        // oneshots, timers, permits) are never forced.
+        if matches!(
+            op,
+            Op::Deliver(..) | Op::DeliverErr(..) | Op::Eof | Op::SetReady(_) | Op::SetFlush(_)
+                | Op::SetClose(_) | Op::Fail(_) | Op::Drain(_)
+        ) {
+            wb.dwaker.waker.wake_by_ref();
+        }
         wb.obs.push(o);
         wb.eff.push(coq_op(&op));
         drop(wb);
@@ -698,6 +808,63 @@ pub fn to_case(s: &Script) -> Case {
         tags,
         nops: s.ops.len(),
     }
+}
+
+/// Wake-driven case: ops are `wop`s, observations `wobs`.
+pub fn to_case_wake(s: &Script) -> Case {
+    let (obs, tags, ops) = run_impl(s);
+    let wops: Vec<String> = ops
+        .iter()
+        .map(|o| if o == "SETTLE" { "WSettle".to_string() } else { format!("WOp ({o})") })
+        .collect();
+    let wobs: Vec<String> = ops
+        .iter()
+        .zip(obs.iter())
+        .map(|(o, l)| if o == "SETTLE" { l[0].clone() } else { format!("WO {}", coq_list(l)) })
+        .collect();
+    Case {
+        cfg: format!(
+            "mkcfg {} {} {} {}",
+            s.cfg.qcap,
+            s.cfg.maxif,
+            s.cfg.cap,
+            if s.cfg.coupled { "true" } else { "false" }
+        ),
+        ops: coq_list(&wops),
+        obs: coq_list(&wobs),
+        tags,
+        nops: s.ops.len(),
+    }
+}
+
+/// Wake-driven scripts: external events, each usually followed by a settle; explicit polls of
+/// the dispatch or of calls never occur (a task is polled only because its waker fired).
+pub fn gen_wake(rng: &mut Rng) -> Script {
+    let base = gen(rng, *rng.clone().pick(&[Bias::General, Bias::Fault, Bias::Shutdown, Bias::Abandon, Bias::Contract, Bias::Deadline]));
+    let mut ops = vec![];
+    for o in base.ops {
+        match o {
+            Op::PollD | Op::PollCall(_) => {
+                if rng.chance(1, 2) {
+                    ops.push(Op::Settle);
+                }
+            }
+            Op::GClose(i) => {
+                // guard drops are atomic here
+                ops.push(Op::DropCall(i));
+                ops.push(Op::Settle);
+            }
+            Op::GCancel(_) => {}
+            other => {
+                ops.push(other);
+                if rng.chance(3, 4) {
+                    ops.push(Op::Settle);
+                }
+            }
+        }
+    }
+    ops.push(Op::Settle);
+    Script { cfg: base.cfg, ops }
 }
 
 // ------------------------------------------------------------------------------------ generation
